@@ -603,15 +603,13 @@ class ConcurrentVector {
 
     auto e_it = std::move(last, cend(), it);
 
-    if (e_it < last) {
-      // remove any values that were not already moved into
-      do {
-        --last;
-        last->~T();
-      } while (e_it != last);
+    // Destroy the whole vacated tail [new end, old end).
+    for (auto d = end(); d != e_it;) {
+      --d;
+      d->~T();
     }
     size_.fetch_sub(len, std::memory_order_relaxed);
-    return e_it;
+    return it;
   }
 
   /**
